@@ -3829,6 +3829,7 @@ func recv(n *node) {
 				if chosen == 0 {
 					return nil
 				}
+				getFrame(f, l).data[i] = v
 				if v.Bool() {
 					return tnext
 				}
